@@ -24,8 +24,11 @@ static std::size_t region_threads() {
     return ids.size();
 }
 
+void parmcb_verif_tu2_set(std::size_t n);
+
 int main() {
     CaseIn c;
+    std::size_t nset = 0;
     std::vector<std::unique_ptr<tbb::global_control>> client;
     while (next_case(c)) {
         std::cout << "case " << c.id << " knob\n";
@@ -33,7 +36,11 @@ int main() {
         for (auto &w : c.body) {
             if (w[0] != "op") continue;
             std::cout << "op"; for (std::size_t i = 1; i < w.size(); i++) std::cout << " " << w[i]; std::cout << "\n";
-            if (w[1] == "set") parmcb::set_global_tbb_concurrency(std::stoul(w[2]));
+            if (w[1] == "set") {
+                // alternately from this translation unit and from a second one (h_knob_tu2.cpp)
+                if ((nset++) % 2 == 0) parmcb::set_global_tbb_concurrency(std::stoul(w[2]));
+                else parmcb_verif_tu2_set(std::stoul(w[2]));
+            }
             else if (w[1] == "push") client.emplace_back(new tbb::global_control(tbb::global_control::max_allowed_parallelism, std::stoul(w[2])));
             else if (w[1] == "pop") { if (!client.empty()) client.pop_back(); }
             else if (w[1] == "query") std::cout << "r active " << active() << "\n";
